@@ -82,7 +82,10 @@ func c19Run(ctx *core.Ctx) {
 		// every ordinary command (and a few pipelined pairs) in every state: out of place in most of
 		// them, which must be a refusal and never a crash
 		for _, l := range []string{"MAIL FROM:<a@x.test>", "MAIL FROM:<>", "RCPT TO:<b@x.test>", "DATA", "BDAT 1 LAST\r\nx", "BDAT 0 LAST", "BDAT 0", "RSET", "VRFY a", "EXPN l", "HELP", "NOOP", "AUTH VERIF b2s=", "AUTH VERIF", "STARTTLS", "QUIT",
-			"EHLO again.test", "HELO again.test", "LHLO again.test", "MAIL FROM:<a@x.test>\r\nRCPT TO:<b@x.test>\r\nDATA\r\nx\r\n.", "MAIL FROM:<a@x.test> BODY=BINARYMIME\r\nRCPT TO:<b@x.test>\r\nBDAT 1 LAST\r\nx", "RCPT TO:<b@x.test>\r\nBDAT 2\r\nab\r\nRSET"} {
+			"EHLO again.test", "HELO again.test", "LHLO again.test", "MAIL FROM:<a@x.test>\r\nRCPT TO:<b@x.test>\r\nDATA\r\nx\r\n.", "MAIL FROM:<a@x.test> BODY=BINARYMIME\r\nRCPT TO:<b@x.test>\r\nBDAT 1 LAST\r\nx", "RCPT TO:<b@x.test>\r\nBDAT 2\r\nab\r\nRSET",
+			// arguments made of nothing but Unicode white space (not SP/HT: they are argument text)
+			"EHLO \u00a0", "HELO \u0085", "LHLO \u2003", "EHLO a\u00a0b", "EHLO \u00a0 \u2003", "MAIL FROM:\u00a0", "MAIL \u2003", "RCPT TO:\u0085", "RCPT TO:<b@x.test> \u00a0", "MAIL FROM:<a@x.test> \u2003=\u00a0",
+			"VRFY \u00a0", "AUTH \u00a0", "AUTH VERIF \u2003", "BDAT \u00a0", "BDAT 1 \u0085", "NOOP \u00a0", "\u00a0", "\u2003 EHLO x", "DATA \u00a0", "STARTTLS \u0085", "RSET \u3000", "QUIT \u00a0"} {
 			for _, st := range c19States {
 				emit(c19Case{Kind: "short", State: st, Line: []byte(l), LineQ: fmt.Sprintf("%q", l)})
 			}
